@@ -22,14 +22,16 @@ RULE = (
     "cases = seeded scenarios in which the receiving side advertises small limits (max_data / max_stream_data in "
     "{0,1,2,1199,1200,1201,4096,65536,default}, stream counts in {0,1,2,3,128}) and the sender writes 0x/1x/2x/10x the limit on "
     "1..limit+3 streams of each kind (one write or many, FIN, reset mid-way) over a lossy/duplicating/reordering network; the "
-    "receiver's own MAX_* updates get lost, duplicated and reordered. non-trivial = the ledger saw the sender exactly exhaust a "
+    "receiver's own MAX_* updates get lost, duplicated and reordered; in 30% of the cases the client resumes a session with lower-or-equal remembered "
+    "limits and writes before the handshake completes (0-RTT). non-trivial = the ledger saw the sender exactly exhaust a "
     "limit and later send beyond it after an update was delivered; distinct = hash(limit configuration bucket, op multiset, fate multiset)."
 )
 ASSUMPTIONS = [
     "limits in force are computed from the configured transport parameters of the peer and from MAX_* frames the independent tap "
     "parsed in datagrams the simulator delivered to the sender",
     "stream-count limits are preset on the advertising endpoint before the handshake (QuicConfiguration has no knob for them)",
-    "0-RTT with remembered limits is not exercised by this check yet",
+    "0-RTT: the limits in force for the client are the ones of the priming connection until the first server packet above the "
+    "Initial level has been delivered to it, then the maximum of both (the generator never lets the server reduce a limit, as RFC 9000 7.4.1 requires)",
 ]
 
 LIMITS = [0, 1, 2, 1199, 1200, 1201, 4096, 65536, 1048576]
@@ -37,7 +39,7 @@ COUNTS = [0, 1, 2, 3, 128]
 
 
 def floors(tier):
-    return {"credit_evaluations": 2000, "stream_frames": 2000, "updates_delivered": 50}
+    return {"credit_evaluations": 2000, "stream_frames": 2000, "updates_delivered": 50, "zero_rtt_stream_frames": 50}
 
 
 def plan(tier, seed):
@@ -91,6 +93,21 @@ def gen_case(seed):
                     if not fin and rng.random() < 0.05:
                         script.append({"t": round(t, 4), "side": send, "op": "reset", "sid": sid, "code": 3})
                         break
+    r2 = random.Random("c06-0rtt/%s" % seed)
+    if r2.random() < 0.3:
+        # 0-RTT: the client resumes a session in which the server advertised lower-or-equal limits
+        # (a server must not reduce them); part of the client's writes happen before the handshake
+        # completes and are bound by the remembered limits, the rest by the new ones.
+        rem = {}
+        for k, pool in (("max_data_server", LIMITS), ("max_stream_data_server", LIMITS), ("max_streams_bidi_server", COUNTS), ("max_streams_uni_server", COUNTS)):
+            cur = opts.get(k)
+            if cur is None:
+                continue
+            rem[k] = r2.choice([x for x in pool if x <= cur])
+        opts["resume"] = rem
+        for o in script:
+            if o["side"] == "client" and r2.random() < 0.6:
+                o["t"] = r2.choice([0.0, 0.0, 0.001, 0.004])
     script.sort(key=lambda o: o["t"])
     return {"seed": seed, "opts": opts, "fates": fates, "script": script, "horizon": fates["adv_seconds"] + 150.0}
 
@@ -108,10 +125,12 @@ def run_batch(batch):
         o = sc["opts"]
         sig = tuple((k, o[k]) for k in sorted(o) if k.startswith("max_"))
         sim, ok = run_case(sc, [led, dm], res, {"gen": "limits", "seeds": [seed]},
-                           counters=("stream_frames", "updates_delivered", "retransmitted_bytes", "bytes_checked"),
+                           counters=("stream_frames", "updates_delivered", "retransmitted_bytes", "bytes_checked", "zero_rtt_stream_frames"),
                            nontrivial=lambda s: bool(led.progress_after_block), sig_extra=sig)
         res.count("runs_blocked_then_progressed", 1 if led.progress_after_block else 0)
         res.count("runs_blocked", 1 if led.blocked_seen else 0)
+        res.count("runs_resumed_0rtt", 1 if led.zero_rtt_stream_frames else 0)
+        res.count("runs_0rtt_limits_raised_by_handshake", 1 if (led.zero_rtt_stream_frames and isinstance(led.remembered_until, float)) else 0)
         if ok:
             res.sample({"seed": seed, "limits": dict(sig), "ops": len(sc["script"]), "stream_frames": led.stream_frames,
                         "updates_delivered": led.updates_delivered, "retransmitted_bytes": led.retransmitted_bytes,
